@@ -316,6 +316,12 @@ impl Mode for BusMode {
                             t += rng.below(100000);
                             h.push(format!("s{:x}", t));
                         }
+                        // stores to the port-related configuration registers that are NOT part of the port model (pull-up control P2PCR /
+                        // P4PCR / P5PCR, their neighbours): they must not change what a port reads, drives or announces
+                        if rng.chance(1, 12) {
+                            let a = *rng.pick(&[0xfee03cu32, 0xfee03e, 0xfee03f, 0xfee03d, 0xfee03b, 0xfee00b, 0xffffdb, 0xfee010]);
+                            h.push(format!("w{:x}:{:x}", a, *rng.pick(&[0xffu8, 0x0f, 0xf0, 0x55, 0])));
+                        }
                         let ops = if two && rng.chance(1, 2) { &o2 } else { &o1 };
                         // reads are a quarter of the operations; values mostly from the covering set
                         if rng.chance(1, 4) {
